@@ -31,6 +31,9 @@ def make_objective(o, dim):
         f = lambda x: float(np.dot(w, x)) * sc
     elif kind == "plateau":
         f = lambda x: float(np.floor(np.sum(np.abs(x - sh)) * o.get("steps", 2.0))) * sc
+    elif kind == "nanhole":  # undefined (NaN) on part of the box, a shifted sphere elsewhere: only used by forced batches (C12 size, C19 RNG)
+        thr = float(o["nan_below"])
+        f = lambda x: float("nan") if x[0] < thr else float(np.sum((x - sh) ** 2))
     elif kind == "zero":
         f = lambda x: 0.0
     elif kind == "zerobest":  # optimum value exactly 0.0 at the shift, positive elsewhere (min) — exercises "best == 0.0"
@@ -77,6 +80,9 @@ def gen_objective(rng, dim, box, maximize, kind=None):
     inside = [lo + rng.random() * (hi - lo) for lo, hi in box]
     if kind in ("sphere", "rastrigin", "plateau", "zerobest"):
         o["shift"] = inside if rng.random() < 0.7 else [lo - 0.3 * (hi - lo) for lo, hi in box]  # optimum outside the box
+    if kind == "nanhole":
+        o["shift"] = inside
+        o["nan_below"] = box[0][0] + rng.choice([0.2, 0.35, 0.5]) * (box[0][1] - box[0][0])
     if kind == "funnel":
         o["shift"] = inside
         o["second"] = [rng.uniform(-0.5, 0.5) * (hi - lo) for lo, hi in box]
@@ -212,6 +218,11 @@ def gen_spec(seed, **force):
         spec["hibernation"] = False
     spec["random_seed"] = rng.randint(0, 10 ** 6)
     spec["wrappers"] = force.get("wrappers") or rng.choice(["none", "none", "counting", "stats", "shared_counting"])
+    if spec["wrappers"] == "cutoff" and spec["gsc"]["kind"] == "Precision":
+        spec["wrappers"] = "none"      # the precision setting installs its own shared wrapper
+    if spec["wrappers"] == "cutoff":
+        spec["cutoff"] = force.get("cutoff") or rng.choice([15, 40, 90, 200, 450])
+        spec["has_cutoff"] = True
     spec["cap_metaepochs"] = force.get("cap_metaepochs", 14)
     spec["cap_evals"] = force.get("cap_evals", 3000)
     # nbc_local generator needs >= 2 levels below... it iterates levels[:-2] and levels[-2]
@@ -292,6 +303,15 @@ def build(spec, objective_wrapper=None):
             p = shared
         problems.append(p)
         info["base"].append(base)
+    if spec["wrappers"] == "cutoff":
+        # one evaluation-cutoff wrapper shared by all levels (what minimize(maxfun=...) builds)
+        from pyhms.core.problem import EvalCutoffProblem
+        f = objective_wrapper(0, raw) if objective_wrapper else raw
+        base = FunctionProblem(f, bounds, spec["maximize"])
+        cut = EvalCutoffProblem(base, spec["cutoff"])
+        problems = [cut] * spec["height"]
+        info["base"] = [base] * spec["height"]
+        info["cutoff_problem"] = cut
     g = spec["gsc"]
     if g["kind"] == "Precision":
         # one precision wrapper shared by all levels (the documented "singular problem" setting)
